@@ -218,13 +218,15 @@ func (t *binary[V]) _delete(n *binaryNode[V], key string) (*binaryNode[V], V, bo
 
 	if n.char == key[0] {
 		if len(key) == 1 {
-			t.size--
-			val, ok = n.val, true
-			n.val, n.term = zeroV, false
+			if n.term { // only a node that ends a key holds a key-value
+				t.size--
+				val, ok = n.val, true
+				n.val, n.term = zeroV, false
+			}
 		} else {
 			n.left, val, ok = t._delete(n.left, key[1:])
 		}
-		if n.left == nil {
+		if n.left == nil && !n.term { // never prune a node that still ends a key
 			n = n.right
 		}
 	} else {
